@@ -605,6 +605,94 @@ Proof.
   match goal with |- (match ?o with _ => _ end) <> _ => destruct o as [|[|? ?] [|? ?]] end; discriminate.
 Qed.
 
+(* segment lists on which the walk of uriRemoveDotSegmentsEx changes nothing: no dot segment at all, or
+   (relative rule only) a leading ".." run followed by none, or a leading "." in front of a first
+   segment containing ':' followed by none *)
+Definition no_dots (l : list text) : bool := forallb (fun s => negb (seg_dot s) && negb (seg_dotdot s)) l.
+Fixpoint drop_dotdots (l : list text) : list text :=
+  match l with
+  | s :: r => if seg_dotdot s then drop_dotdots r else l
+  | [] => []
+  end.
+Definition stable_path (relative : bool) (segs : list text) : bool :=
+  no_dots segs
+  || (relative && (no_dots (drop_dotdots segs)
+                   || match segs with
+                      | d :: n :: r => seg_dot d && has_colon n && no_dots (n :: r)
+                      | _ => false
+                      end)).
+
+Lemma no_dots_Forall l : no_dots l = true -> Forall (fun s => seg_dot s = false /\ seg_dotdot s = false) l.
+Proof.
+  intros H. apply Forall_forall. intros s Hs. unfold no_dots in H. rewrite forallb_forall in H.
+  specialize (H s Hs). apply andb_prop in H. destruct H as [H1 H2].
+  apply negb_true_iff in H1. apply negb_true_iff in H2. auto.
+Qed.
+
+Lemma Forall_no_dots l : Forall (fun s => seg_dot s = false /\ seg_dotdot s = false) l -> no_dots l = true.
+Proof.
+  intros H. unfold no_dots. apply forallb_forall. intros s Hs. rewrite Forall_forall in H.
+  destruct (H s Hs) as [H1 H2]. rewrite H1, H2. reflexivity.
+Qed.
+
+Ltac split_char a :=
+  destruct a as [|a]; [try discriminate|];
+  do 6 (try (destruct a as [a|a|]; try discriminate)).
+Lemma seg_dotdot_eq s : seg_dotdot s = true -> s = [46; 46].
+Proof.
+  destruct s as [|a [|b [|c r]]]; try discriminate.
+  - intros H. split_char a.
+  - intros H. split_char a. split_char b. reflexivity.
+  - intros H. split_char a. split_char b.
+Qed.
+Lemma dotdot_not_dot s : seg_dotdot s = true -> seg_dot s = false.
+Proof. intros H. apply seg_dotdot_eq in H. subst s. reflexivity. Qed.
+
+Lemma rds_walk_dotdot_run host abs segs : forall kept,
+  Forall (fun s => seg_dotdot s = true) kept -> no_dots (drop_dotdots segs) = true ->
+  rds_walk true host abs kept segs = rev kept ++ segs.
+Proof.
+  induction segs as [|s r IH]; intros kept Hk Hd.
+  - cbn [rds_walk]. rewrite app_nil_r. reflexivity.
+  - cbn [drop_dotdots] in Hd. destruct (seg_dotdot s) eqn:Edd.
+    + cbn [rds_walk andb]. rewrite (dotdot_not_dot s Edd), Edd.
+      assert (match kept with [] => true | p :: _ => seg_dotdot p end = true) as Hkeep.
+      { destruct kept as [|p k]; [reflexivity|]. inversion Hk; assumption. }
+      rewrite Hkeep. rewrite IH; [cbn [rev]; rewrite <- app_assoc; reflexivity|constructor; assumption|exact Hd].
+    + apply rds_walk_no_dots. apply no_dots_Forall. exact Hd.
+Qed.
+
+Lemma rds_walk_essential host abs d nxt :
+  seg_dot d = true -> match nxt with n1 :: _ => has_colon n1 | [] => false end = true ->
+  rds_walk true host abs [] (d :: nxt) = rds_walk true host abs [d] nxt.
+Proof. intros Hd Hc. cbn [rds_walk andb]. rewrite Hd, Hc. reflexivity. Qed.
+
+Lemma rds_walk_stable rel host abs segs : stable_path rel segs = true ->
+  rds_walk rel host abs [] segs = segs.
+Proof.
+  intros H. unfold stable_path in H. apply orb_prop in H. destruct H as [H|H].
+  - apply (rds_walk_no_dots rel host abs segs []). apply no_dots_Forall. exact H.
+  - apply andb_prop in H. destruct H as [Hr H]. subst rel. apply orb_prop in H. destruct H as [H|H].
+    + apply (rds_walk_dotdot_run host abs segs []); [constructor|exact H].
+    + destruct segs as [|d [|n r]]; try discriminate H.
+      apply andb_prop in H. destruct H as [H Hn]. apply andb_prop in H. destruct H as [Hd Hc].
+      rewrite rds_walk_essential by assumption.
+      rewrite rds_walk_no_dots by (apply no_dots_Forall; exact Hn). reflexivity.
+Qed.
+
+Lemma norm_segs_of_fixed rel host abs segs :
+  Forall (fun s => fix_pct s = s) segs -> rds_walk rel host abs [] segs = segs ->
+  (host = false -> segs <> [[]]) -> norm_segs_of rel host abs segs = segs.
+Proof.
+  intros Hc Hw Hl. unfold norm_segs_of.
+  assert (map fix_pct segs = segs) as Hm.
+  { clear Hl Hw. induction Hc as [|s r Hs Hr IH]; [reflexivity|]. cbn [map]. rewrite Hs, IH. reflexivity. }
+  rewrite Hm. cbv zeta. rewrite Hw.
+  assert (match segs with [] => [] | _ :: _ => segs end = segs) as Hw' by (destruct segs; reflexivity).
+  rewrite Hw'. destruct host; [reflexivity|]. cbn [negb].
+  destruct segs as [|[|? ?] [|? ?]]; try reflexivity. exfalso. apply Hl; reflexivity.
+Qed.
+
 (* ------------------------------------------------------------------ D. the mask query *)
 Lemma mask_bits (c0 c1 c2 c3 c4 c5 : bool) :
   let m := (if c0 then 1 else 0) + (if c1 then 2 else 0) + (if c2 then 4 else 0)
@@ -747,9 +835,9 @@ Proof.
     destruct (host_norm_fixed t Ht) as [_ [F1 F2]]. rewrite F1, F2. reflexivity.
 Qed.
 
-(* full normalization is idempotent whenever its result has no dot segment left *)
-Lemma normalize_idem_when_no_dots u : uri_pct_wf u = true ->
-  Forall (fun s => seg_dot s = false /\ seg_dotdot s = false) (pathSegs (normalize 63 u)) ->
+(* full normalization is idempotent whenever the path of its result is stable *)
+Lemma normalize_idem_stable u : uri_pct_wf u = true ->
+  stable_path (relative_ref u) (pathSegs (normalize 63 u)) = true ->
   components (normalize 63 (normalize 63 u)) = components (normalize 63 u).
 Proof.
   intros Hwf Hnd.
@@ -776,9 +864,9 @@ Proof.
   assert (omap fix_pct (fragment v) = fragment v) as H3 by (rewrite Hv; cbn [fragment]; apply Ho; exact Hfr).
   rewrite Hs, H1, H2, H3.
   assert (norm_segs v = pathSegs v) as Hp.
-  { unfold norm_segs. apply norm_segs_of_clean.
+  { unfold norm_segs. apply norm_segs_of_fixed.
     - (* every segment of the result is a segment of map fix_pct (pathSegs u) or empty *)
-      assert (Forall (fun s => fix_pct s = s) (pathSegs v)) as Hfix.
+      enough (Forall (fun s => fix_pct s = s) (pathSegs v)) as Hfix by exact Hfix.
       { rewrite Hv. cbn [pathSegs]. unfold norm_segs, norm_segs_of. cbv zeta.
         assert (Forall (fun s => fix_pct s = s) (map fix_pct (pathSegs u))) as Hf.
         { apply Forall_forall. intros x Hx. apply in_map_iff in Hx. destruct Hx as [s [Hs' Hin]]. subst x.
@@ -813,14 +901,24 @@ Proof.
         destruct (negb (is_host_set u)); [|exact Hout].
         match goal with |- Forall _ (match ?o with _ => _ end) => destruct o as [|[|? ?] [|? ?]] end;
           try exact Hout. constructor. }
-      apply Forall_forall. intros s Hs'. rewrite Forall_forall in Hnd, Hfix.
-      destruct (Hnd s Hs') as [D1 D2]. repeat split; auto.
+    - assert (relative_ref v = relative_ref u) as Hrv.
+      { rewrite Hv. unfold relative_ref, is_host_set. cbn [scheme absolutePath hostText ip4 ip6 ipFuture].
+        rewrite norm_host_is_some. destruct (scheme u); reflexivity. }
+      rewrite Hrv. apply rds_walk_stable. exact Hnd.
     - intros Hh. rewrite Hv. cbn [pathSegs]. unfold norm_segs.
       assert (is_host_set u = false) as Hhu.
       { rewrite <- Hh, Hv. unfold is_host_set at 2. cbn [hostText ip4 ip6 ipFuture].
         rewrite norm_host_is_some. reflexivity. }
       rewrite Hhu. apply norm_segs_of_not_lone. }
   rewrite Hp. reflexivity.
+Qed.
+
+Lemma normalize_idem_when_no_dots u : uri_pct_wf u = true ->
+  Forall (fun s => seg_dot s = false /\ seg_dotdot s = false) (pathSegs (normalize 63 u)) ->
+  components (normalize 63 (normalize 63 u)) = components (normalize 63 u).
+Proof.
+  intros Hwf Hnd. apply normalize_idem_stable; [exact Hwf|].
+  unfold stable_path. rewrite (Forall_no_dots _ Hnd). reflexivity.
 Qed.
 
 (* not a relative-path reference: dot removal is the absolute walk, which leaves no dot segment *)
